@@ -908,3 +908,309 @@ theorem readStream_frames (ps : List Packet) : ∀ (fuel : Nat), (∀ p ∈ ps, 
       rw [ih k (fun q hq => hv q (by simp [hq])) (by simp at hf; omega)]
 
 end Cell2v.Codec
+
+namespace Cell2v.Codec
+
+/-- the bytes `Client.readPackets` drops for the packets of whole frames = the length of those frames -/
+theorem packetsLen_frames (ps : List Packet) : packetsLen ps = (ps.flatMap frameBytes).length := by
+  induction ps with
+  | nil => simp [packetsLen]
+  | cons p ps ih =>
+    simp only [packetsLen, List.map_cons, List.sum_cons, List.flatMap_cons, List.length_append, frameBytes_length] at *
+    omega
+
+theorem decodePackets_frames (ps : List Packet) (hv : ∀ p ∈ ps, p.Valid) :
+    decodePackets (ps.flatMap frameBytes) = .ok ps := by
+  cases ps with
+  | nil => simp [decodePackets]
+  | cons p ps =>
+    obtain ⟨h1, h2, h3⟩ := hv p (by simp)
+    unfold decodePackets
+    have hl : ¬ (((p :: ps).flatMap frameBytes).length < 4) := by
+      simp only [List.flatMap_cons, List.length_append, frameBytes_length]; omega
+    rw [if_neg hl]
+    simp only [List.flatMap_cons]
+    rw [frameBytes_take4, parseHeader_frame _ _ h1 h2 h3, frameBytes_drop4]
+    exact decLoop_frames ps p (fun q hq => hv q (by simp [hq]))
+
+/-- a read that brings whole frames into an empty buffer returns exactly their packets and leaves the buffer empty -/
+theorem clientRead_frames (ps : List Packet) (hv : ∀ p ∈ ps, p.Valid) :
+    clientRead [] (ps.flatMap frameBytes) = ([], ps) := by
+  unfold clientRead
+  simp only [List.nil_append]
+  rw [decodePackets_frames ps hv]
+  simp only [packetsLen_frames, List.drop_length]
+
+end Cell2v.Codec
+
+namespace Cell2v.Codec
+
+/-- the packet decoder on a valid frame followed by ANY bytes: the frame's packet in front of whatever the rest decodes to -/
+theorem decodePackets_frame_append (p : Packet) (hv : p.Valid) (b' : Bytes) :
+    decodePackets (frameBytes p ++ b') =
+      (match decodePackets b' with | .ok qs => .ok (p :: qs) | .error e => .error e) := by
+  obtain ⟨h1, h2, h3⟩ := hv
+  have hl : ¬ ((frameBytes p ++ b').length < 4) := by
+    rw [List.length_append, frameBytes_length]; omega
+  conv => lhs; unfold decodePackets
+  rw [if_neg hl, frameBytes_take4, parseHeader_frame _ _ h1 h2 h3, frameBytes_drop4]
+  simp only
+  rw [decLoop]
+  have hle : p.body.length ≤ (p.body ++ b').length := by simp
+  rw [if_pos hle]
+  have hdrop : (p.body ++ b').drop p.body.length = b' := by simp
+  have htake : (p.body ++ b').take p.body.length = p.body := by simp
+  rw [hdrop, htake]
+  by_cases hb : b'.length < 4
+  · rw [if_pos hb]
+    unfold decodePackets
+    rw [if_pos hb]
+  · rw [if_neg hb]
+    conv => rhs; unfold decodePackets
+    rw [if_neg hb]
+    cases hp : parseHeader (b'.take 4) with
+    | error e => rfl
+    | ok v =>
+      obtain ⟨s', t'⟩ := v
+      simp only
+      cases decLoop s' t' (b'.drop 4) <;> rfl
+
+/-- a strict prefix of one valid frame decodes to no packet (and no error) -/
+theorem decodePackets_strict_prefix (p : Packet) (hv : p.Valid) (b tail : Bytes)
+    (hb : b ++ tail = frameBytes p ++ rest) (hlt : b.length < 4 + p.body.length) :
+    decodePackets b = .ok [] := by
+  obtain ⟨h1, h2, h3⟩ := hv
+  unfold decodePackets
+  by_cases h4 : b.length < 4
+  · rw [if_pos h4]
+  · rw [if_neg h4]
+    have ht : b.take 4 = p.typ :: intToBytes p.body.length := by
+      have := congrArg (List.take 4) hb
+      rw [List.take_append_of_le_length (by omega), frameBytes_take4] at this
+      exact this
+    rw [ht, parseHeader_frame _ _ h1 h2 h3]
+    simp only
+    rw [decLoop]
+    have : ¬ (p.body.length ≤ (b.drop 4).length) := by
+      rw [List.length_drop]; omega
+    rw [if_neg this]
+
+/-- **prefix decoding**: every prefix `b` of a stream of valid frames decodes to the packets of the frames that are
+complete in it; what is left after them is a strict prefix of the next frame (empty when there is none) -/
+theorem decodePackets_prefix (ps : List Packet) : ∀ (b tail : Bytes), (∀ p ∈ ps, p.Valid) →
+    b ++ tail = ps.flatMap frameBytes →
+    ∃ qs rs rest', ps = qs ++ rs ∧ decodePackets b = .ok qs ∧ b = qs.flatMap frameBytes ++ rest' ∧
+      rest' ++ tail = rs.flatMap frameBytes ∧ (∀ p rs', rs = p :: rs' → rest'.length < 4 + p.body.length) ∧
+      (rs = [] → rest' = []) := by
+  induction ps with
+  | nil =>
+    intro b tail _ hb
+    simp only [List.flatMap_nil, List.append_eq_nil_iff] at hb
+    obtain ⟨rfl, rfl⟩ := hb
+    exact ⟨[], [], [], rfl, by simp [decodePackets], by simp, by simp, (fun p rs' h => by cases h), fun _ => rfl⟩
+  | cons p ps ih =>
+    intro b tail hv hb
+    have hpv : p.Valid := hv p (by simp)
+    simp only [List.flatMap_cons] at hb
+    by_cases hlt : b.length < 4 + p.body.length
+    · refine ⟨[], p :: ps, b, rfl, decodePackets_strict_prefix (rest := ps.flatMap frameBytes) p hpv b tail hb hlt, by simp, ?_, ?_, ?_⟩
+      · simpa using hb
+      · intro q rs' h
+        cases h
+        exact hlt
+      · intro h; cases h
+    · have hn : (frameBytes p).length ≤ b.length := by rw [frameBytes_length]; omega
+      have e1 : b.take (frameBytes p).length = frameBytes p := by
+        have := congrArg (List.take (frameBytes p).length) hb
+        rw [List.take_append_of_le_length hn, List.take_left' rfl] at this
+        exact this
+      have e2 : b.drop (frameBytes p).length ++ tail = ps.flatMap frameBytes := by
+        have := congrArg (List.drop (frameBytes p).length) hb
+        rw [List.drop_append_of_le_length hn, List.drop_left' rfl] at this
+        exact this
+      have eb : b = frameBytes p ++ b.drop (frameBytes p).length := by
+        conv => lhs; rw [← List.take_append_drop (frameBytes p).length b, e1]
+      obtain ⟨qs, rs, rest', hps, hd, hbb, hrest, hstrict, hnil⟩ :=
+        ih (b.drop (frameBytes p).length) tail (fun q hq => hv q (by simp [hq])) e2
+      refine ⟨p :: qs, rs, rest', by simp [hps], ?_, ?_, hrest, hstrict, hnil⟩
+      · rw [eb, decodePackets_frame_append p hpv, hd]
+      · conv => lhs; rw [eb, hbb]
+        simp
+
+/-- one `readPackets` round on a buffer that is a strict prefix of the next frame -/
+theorem clientReadLoop_frames (fs : List Bytes) : ∀ (buf : Bytes) (ps : List Packet), (∀ p ∈ ps, p.Valid) →
+    buf ++ fs.flatten = ps.flatMap frameBytes →
+    (∀ p ps', ps = p :: ps' → buf.length < 4 + p.body.length) → (ps = [] → buf = []) →
+    clientReadLoop buf fs = ps := by
+  induction fs with
+  | nil =>
+    intro buf ps _ hb hstrict _
+    cases ps with
+    | nil => rfl
+    | cons p ps' =>
+      exfalso
+      have h1 := hstrict p ps' rfl
+      have h2 := congrArg List.length hb
+      simp only [List.flatten_nil, List.append_nil, List.flatMap_cons, List.length_append, frameBytes_length] at h2
+      omega
+  | cons f fs ih =>
+    intro buf ps hv hb hstrict hnil
+    have hb' : (buf ++ f) ++ fs.flatten = ps.flatMap frameBytes := by
+      simpa [List.append_assoc] using hb
+    obtain ⟨qs, rs, rest', hps, hd, hbb, hrest, hs', hn'⟩ := decodePackets_prefix ps (buf ++ f) fs.flatten hv hb'
+    have hvr : ∀ p ∈ rs, p.Valid := fun q hq => hv q (by rw [hps]; simp [hq])
+    unfold clientReadLoop
+    have hr : clientRead buf f = (rest', qs) := by
+      unfold clientRead
+      simp only
+      rw [hd]
+      simp only
+      rw [packetsLen_frames]
+      conv => lhs; arg 1; rw [hbb]
+      simp
+    rw [hr]
+    simp only
+    rw [ih rest' rs hvr hrest hs' hn', hps]
+
+end Cell2v.Codec
+
+namespace Cell2v.Codec
+
+/-- references and packets agree: same error, or the references read (on `data`) as the packets -/
+def RefsAgree (data : Bytes) : Except PErr (List PRef) → Except PErr (List Packet) → Prop
+  | .ok rs, .ok ps => rs.map (fun r => r.on data) = ps
+  | .error e, .error e' => e = e'
+  | _, _ => False
+
+theorem decRefLoop_agree (id : Nat) (data : Bytes) : ∀ (n off size typ : Nat), data.length - off ≤ n → off ≤ data.length →
+    RefsAgree data (decRefLoop id size typ data off) (decLoop size typ (data.drop off)) := by
+  intro n
+  induction n with
+  | zero =>
+    intro off size typ hn ho
+    rw [decRefLoop, decLoop]
+    have hl : (data.drop off).length = 0 := by rw [List.length_drop]; omega
+    by_cases hs : size ≤ data.length - off
+    · have hs' : size ≤ (data.drop off).length := by rw [List.length_drop]; exact hs
+      rw [if_pos hs, if_pos hs']
+      have h1 : data.length - (off + size) < 4 := by omega
+      have h2 : ((data.drop off).drop size).length < 4 := by simp only [List.length_drop]; omega
+      rw [if_pos h1, if_pos h2]
+      simp [RefsAgree, PRef.on]
+    · have hs' : ¬ size ≤ (data.drop off).length := by rw [List.length_drop]; exact hs
+      rw [if_neg hs, if_neg hs']
+      simp [RefsAgree]
+  | succ n ih =>
+    intro off size typ hn ho
+    rw [decRefLoop, decLoop]
+    by_cases hs : size ≤ data.length - off
+    · have hs' : size ≤ (data.drop off).length := by rw [List.length_drop]; exact hs
+      rw [if_pos hs, if_pos hs']
+      have hdd : (data.drop off).drop size = data.drop (off + size) := by rw [List.drop_drop]
+      rw [hdd]
+      by_cases h4 : data.length - (off + size) < 4
+      · have h4' : (data.drop (off + size)).length < 4 := by rw [List.length_drop]; exact h4
+        rw [if_pos h4, if_pos h4']
+        simp [RefsAgree, PRef.on]
+      · have h4' : ¬ (data.drop (off + size)).length < 4 := by rw [List.length_drop]; exact h4
+        rw [if_neg h4, if_neg h4']
+        cases hp : parseHeader ((data.drop (off + size)).take 4) with
+        | error e => simp [RefsAgree]
+        | ok v =>
+          obtain ⟨s', t'⟩ := v
+          simp only
+          have hd4 : (data.drop (off + size)).drop 4 = data.drop (off + size + 4) := by rw [List.drop_drop]
+          rw [hd4]
+          have := ih (off + size + 4) s' t' (by omega) (by omega)
+          revert this
+          cases decRefLoop id s' t' data (off + size + 4) <;> cases decLoop s' t' (data.drop (off + size + 4)) <;>
+            simp [RefsAgree, PRef.on]
+    · have hs' : ¬ size ≤ (data.drop off).length := by rw [List.length_drop]; exact hs
+      rw [if_neg hs, if_neg hs']
+      simp [RefsAgree]
+
+/-- the slices `Decode` returns read, on its private copy, as exactly the packets of the pure decoder -/
+theorem decodeRefs_agree (id : Nat) (data : Bytes) : RefsAgree data (decodeRefs id data) (decodePackets data) := by
+  unfold decodeRefs decodePackets
+  by_cases h : data.length < 4
+  · simp [h, RefsAgree]
+  · rw [if_neg h, if_neg h]
+    cases hp : parseHeader (data.take 4) with
+    | error e => simp [RefsAgree]
+    | ok v =>
+      obtain ⟨s, t⟩ := v
+      simp only
+      exact decRefLoop_agree id data data.length 4 s t (by omega) (by omega)
+
+theorem decRefLoop_buf (id : Nat) (data : Bytes) : ∀ (n off size typ : Nat), data.length - off ≤ n →
+    ∀ rs, decRefLoop id size typ data off = .ok rs → ∀ r ∈ rs, r.buf = id := by
+  intro n
+  induction n with
+  | zero =>
+    intro off size typ hn rs h r hr
+    rw [decRefLoop] at h
+    split at h
+    · split at h
+      · cases h; simp at hr; rw [hr]
+      · omega
+    · cases h; simp at hr
+  | succ n ih =>
+    intro off size typ hn rs h r hr
+    rw [decRefLoop] at h
+    split at h
+    · split at h
+      · cases h; simp at hr; rw [hr]
+      · split at h
+        · cases h
+        · rename_i s' t' _
+          cases h2 : decRefLoop id s' t' data (off + size + 4) with
+          | error e => rw [h2] at h; cases h
+          | ok rs' =>
+            rw [h2] at h
+            cases h
+            simp only [List.mem_cons] at hr
+            rcases hr with hr | hr
+            · rw [hr]
+            · exact ih (off + size + 4) s' t' (by omega) rs' h2 r hr
+    · cases h; simp at hr
+
+theorem decodeRefs_buf (id : Nat) (data : Bytes) (rs : List PRef) (h : decodeRefs id data = .ok rs) : ∀ r ∈ rs, r.buf = id := by
+  unfold decodeRefs at h
+  split at h
+  · cases h; simp
+  · split at h
+    · cases h
+    · exact decRefLoop_buf id data data.length 4 _ _ (by omega) rs h
+
+/-- no later operation changes a decoder-private buffer (or moves it) -/
+theorem step_keeps_decoder (h : Heap) (op : HOp) (id : Nat) (d : Bytes) (hb : h[id]? = some ⟨.decoder, d⟩) :
+    (h.step op)[id]? = some ⟨.decoder, d⟩ := by
+  have hlt : id < h.length := by
+    rcases Nat.lt_or_ge id h.length with hl | hl
+    · exact hl
+    · rw [List.getElem?_eq_none hl] at hb; cases hb
+  cases op with
+  | write i bs =>
+    simp only [Heap.step]
+    split
+    · rename_i x hi
+      by_cases e : i = id
+      · subst e; rw [hi] at hb; cases hb
+      · rw [List.getElem?_set_ne e]; exact hb
+    · exact hb
+  | alloc bs =>
+    simp only [Heap.step]
+    rw [List.getElem?_append_left hlt]; exact hb
+  | decode inp =>
+    simp only [Heap.step, decodeH]
+    split
+    · exact hb
+    · simp only; rw [List.getElem?_append_left hlt]; exact hb
+
+theorem steps_keep_decoder (ops : List HOp) : ∀ (h : Heap) (id : Nat) (d : Bytes), h[id]? = some ⟨.decoder, d⟩ →
+    (ops.foldl Heap.step h)[id]? = some ⟨.decoder, d⟩ := by
+  induction ops with
+  | nil => intro h id d hb; exact hb
+  | cons op ops ih => intro h id d hb; exact ih _ id d (step_keeps_decoder h op id d hb)
+
+end Cell2v.Codec
